@@ -202,6 +202,7 @@ type c18Pair struct {
 	reopen func(exp map[string]string) map[string]string        // documented differences after save+reopen (nil = none)
 	fresh  map[string]string                                    // getter result on a new workbook (defaults)
 	fields []string                                             // fields routed through the modelled helpers (transcript op "pair")
+	sig    func(field string, opts map[string]string) string    // signature suffix naming the value class that matters (optional)
 }
 
 // eff is the effective value of a rendering: a nil pointer stands for the
@@ -380,6 +381,9 @@ func c18RunPair(r *Run, rng *Rng, p *c18Pair, steps int, forced []interface{}) {
 				continue // nil pointer == the default it stands for
 			}
 			sig := fmt.Sprintf("%s:%s", p.name, c18FieldKey(k))
+			if p.sig != nil {
+				sig += p.sig(k, om)
+			}
 			r.Fail(sig, fmt.Sprintf("%s: field %s set %q (" + c18Class(om[k]) + "), before %q, getter returns %q, expected %q", p.name, k, om[k], before[k], after[k], exp[k]), 0, replay)
 		}
 		// after unrelated edits
